@@ -124,7 +124,16 @@ public:
 // ---------------------------------------------------------------- allocation-size observation (C14)
 // Requests whose size is driven by parsed numbers are recorded; harnesses assert on the maximum.
 extern long long qm_alloc_max;
-inline void qm_alloc_request(long long n) { if (n > qm_alloc_max) qm_alloc_max = n; }
+#ifndef QM_ALLOC_LIMIT
+#define QM_ALLOC_LIMIT (1LL << 26)
+#endif
+inline void qm_alloc_request(long long n)
+{
+    if (n > qm_alloc_max) qm_alloc_max = n;
+    // an allocation of more than 64 Mi units is only ever requested because a number taken from the input drives it
+    // (release Qt would throw std::bad_alloc -> abort for the sizes that follow)
+    vf_assert(n <= QM_ALLOC_LIMIT, "KF:C14-width-alloc allocation size is driven by a number parsed from the input (would exhaust memory)");
+}
 
 // ---------------------------------------------------------------- QChar / QLatin1Char / QLatin1String
 class QLatin1Char
